@@ -269,3 +269,4 @@ import BGV
 #print axioms BGV.C19_dijkstra_scans
 #print axioms BGV.C19_reconstruction_steps
 #print axioms BGV.C19_findGeodesics_path_le
+#print axioms BGV.C19_findGeodesicsFromVertex_size
